@@ -36,13 +36,16 @@ def run_json_driver(mode, objs):
 # ---------------------------------------------------------------------------
 # library-side oracle: the component tree as icalendar parses it
 
+ZONE = [UTC]   # the zone floating and DATE values are resolved in (query's <C:timezone> or the server default)
+
+
 def instant(v):
-    """epoch seconds of a date / datetime value in the server's default zone (UTC here)."""
+    """epoch seconds of a date / datetime value; floating and DATE values live in ZONE[0]."""
     if isinstance(v, dt.datetime):
         if v.tzinfo is None:
-            v = v.replace(tzinfo=UTC)
+            v = v.replace(tzinfo=ZONE[0])
         return int(v.timestamp()), True
-    d = dt.datetime.combine(v, dt.time(0), tzinfo=UTC)
+    d = dt.datetime.combine(v, dt.time(0), tzinfo=ZONE[0])
     return int(d.timestamp()), False
 
 
@@ -116,9 +119,14 @@ def compf_xml(cf):
         "".join(compf_xml(c) for c in cf.get("comps", [])))
 
 
-def query_xml(cf):
+def query_xml(cf, zone=None):
+    tz = ""
+    if zone:
+        tz = ("<C:timezone>BEGIN:VCALENDAR\r\nVERSION:2.0\r\nPRODID:x\r\nBEGIN:VTIMEZONE\r\nTZID:%s\r\n"
+              "END:VTIMEZONE\r\nEND:VCALENDAR\r\n</C:timezone>" % zone)
     return ('<?xml version="1.0" encoding="utf-8"?><C:calendar-query xmlns:D="DAV:" xmlns:C="%s"><D:prop><D:getetag/>'
-            '<C:calendar-data/></D:prop><C:filter>%s</C:filter></C:calendar-query>' % (NS, compf_xml(cf))).encode("utf-8")
+            '<C:calendar-data/></D:prop><C:filter>%s</C:filter>%s</C:calendar-query>' % (NS, compf_xml(cf), tz)
+            ).encode("utf-8")
 
 
 def secs(t):
@@ -192,9 +200,12 @@ def server(chk, fe=None):
     return scratch, srv, fe, prefix
 
 
-def run_batch(chk, members, filters, label):
-    """members: [(name, bytes)], filters: [dict]; one server, all queries; compare with model/RFC."""
+def run_batch(chk, members, filters, label, zone=None):
+    """members: [(name, bytes)], filters: [dict]; one server, all queries; compare with model/RFC.
+    zone: IANA name sent as <C:timezone> (floating and DATE values are then resolved in it)."""
+    import zoneinfo
     scratch, srv, fe, prefix = server(chk)
+    ZONE[0] = zoneinfo.ZoneInfo(zone) if zone else UTC
     try:
         base = prefix.rstrip("/") + CAL + "/"
         stored = []
@@ -210,7 +221,7 @@ def run_batch(chk, members, filters, label):
         objs += [{"op": "query", "filters": [compf_json(f)]} for f in filters]
         outs = run_json_driver("ical", objs)[len(stored) + 1:]
         for f, o in zip(filters, outs):
-            r = srv.request("REPORT", base, {"Depth": "1", "Content-Type": "text/xml"}, query_xml(f))
+            r = srv.request("REPORT", base, {"Depth": "1", "Content-Type": "text/xml"}, query_xml(f, zone))
             if r.status == 207 and parse_multistatus(r.body):
                 ms = parse_multistatus(r.body)
                 names = []
@@ -241,8 +252,8 @@ def run_batch(chk, members, filters, label):
                 rfc = sorted(rfc)
             if isinstance(code, list):
                 code = sorted(code)
-            replay = {"level": "http", "frontend": fe, "prefix": prefix,
-                      "members": {n: d.decode("utf-8") for n, d in stored}, "request": query_xml(f).decode("utf-8"),
+            replay = {"level": "http", "frontend": fe, "prefix": prefix, "zone": zone,
+                      "members": {n: d.decode("utf-8") for n, d in stored}, "request": query_xml(f, zone).decode("utf-8"),
                       "impl": impl, "rfc": rfc, "model": code}
             if impl != code:
                 chk.broke("correspondence calendar-query", f"{compf_xml(f)}: impl {impl} model {code}", replay)
@@ -250,10 +261,12 @@ def run_batch(chk, members, filters, label):
                 if impl == code and has_text_match(f):
                     sig = "C11:text-match-is-equality-not-substring"
                 else:
-                    sig = "C11:wrong-result:" + feature_sig(f) + (":error" if isinstance(impl, dict) else "")
+                    sig = "C11:wrong-result:" + feature_sig(f) + (":zone" if zone else "") + \
+                        (":error" if isinstance(impl, dict) else "")
                 chk.violation(sig, f"calendar-query {compf_xml(f)} answered {impl} but RFC 4791 gives {rfc}", replay)
         chk.traces_validated += 1
     finally:
+        ZONE[0] = UTC
         srv.close()
         shutil.rmtree(scratch, ignore_errors=True)
 
@@ -290,7 +303,7 @@ def feature_sig(f):
 # ---------------------------------------------------------------------------
 # (1) the §9.9 tables, exhaustively over order types
 
-def time_grid(chk, quick):
+def time_grid(chk, quick, zone=None):
     """Every presence pattern of each table x value forms x all orderings on a small grid."""
     pts = range(0, 7, 2) if quick else range(0, 7)      # property instants (12 h units)
     ranges = [(1, 3), (2, 4), (2, 3), (0, 6)] if quick else [(s, e) for s in range(0, 7) for e in range(s + 1, 8)]
@@ -338,7 +351,7 @@ def time_grid(chk, quick):
     # the server lists every member per query: split members into chunks to keep each REPORT small
     chunk = 120
     for i in range(0, len(members), chunk):
-        run_batch(chk, members[i:i + chunk], filters, "time-grid")
+        run_batch(chk, members[i:i + chunk], filters, "time-grid" + ("@" + zone if zone else ""), zone=zone)
     chk.extra["time_grid_exhaustive_over"] = "presence patterns x %s forms x instants %s x ranges %s" % (
         forms, list(pts), len(ranges))
 
@@ -448,6 +461,28 @@ def generated(chk, n_books, n_members, n_queries):
         run_batch(chk, members, [gen_filter(chk.rng) for _ in range(n_queries)], "generated")
 
 
+def cross_instance(chk, n):
+    """prop-filters with two children on a property that occurs twice: separates 'one instance
+    satisfies every child' from 'every child is satisfied by some instance'."""
+    people = ["ann", "bob", "cyd"]
+    stats = ["ACCEPTED", "DECLINED", "NEEDS-ACTION"]
+    for b in range(n):
+        members = []
+        for i in range(5):
+            who = chk.rng.sample(people, 2)
+            st = [chk.rng.choice(stats), chk.rng.choice(stats)]
+            lines = ["UID:x%d" % i, "SUMMARY:s", "DTSTART" + tval(0, "utc")] + [
+                "ATTENDEE;PARTSTAT=%s:mailto:%s@example.com" % (st[k], who[k]) for k in range(2)]
+            members.append(("x%d.ics" % i, ical([{"type": "VEVENT", "lines": lines}])))
+        filters = []
+        for w in people:
+            for st in stats:
+                filters.append({"name": "VCALENDAR", "comps": [{"name": "VEVENT", "props": [
+                    {"name": "ATTENDEE", "tms": [{"text": "mailto:%s@example.com" % w, "neg": chk.rng.random() < 0.2}],
+                     "params": [{"name": "PARTSTAT", "tms": [{"text": st}]}]}]}]})
+        run_batch(chk, members, filters, "cross-instance")
+
+
 def known_finding_probe(chk):
     """KF-C11-text-match-equality, deterministically."""
     members = [("kf.ics", ical([{"type": "VEVENT", "lines": ["UID:kf", "SUMMARY:Meeting with Bob",
@@ -477,7 +512,12 @@ def run(chk):
     quick = chk.tier == "quick"
     known_finding_probe(chk)
     time_grid(chk, quick)
+    # the same tables with floating and DATE values resolved in a zone far from UTC
+    time_grid(chk, True, zone=chk.rng.choice(["Pacific/Auckland", "America/Los_Angeles"]) if quick else "Pacific/Auckland")
+    if not quick:
+        time_grid(chk, True, zone="America/Los_Angeles")
     generated(chk, 3 if quick else 40, 8, 30 if quick else 60)
+    cross_instance(chk, 2 if quick else 20)
     chk.assumptions.append("server default time zone is UTC (no calendar-timezone property); recurrence (RRULE) is not generated")
 
 
